@@ -72,7 +72,8 @@ class JSONField(ABC):
         """
         d = self.__dict__.copy()
         for k in self.__dict__:
-            if d[k] is None or d[k] == 0:
+            # 0 means 'not set' for integer (capacity) fields only - a 0.0 coordinate is a value
+            if d[k] is None or (isinstance(d[k], int) and d[k] == 0):
                 d.pop(k)
         if len(d) == 0:
             return ''
@@ -102,7 +103,8 @@ class JSONField(ABC):
         """
         d = self.__dict__.copy()
         for k in self.__dict__:
-            if d[k] is None or d[k] == 0:
+            # 0 means 'not set' for integer (capacity) fields only - a 0.0 coordinate is a value
+            if d[k] is None or (isinstance(d[k], int) and d[k] == 0):
                 d.pop(k)
         if len(d) == 0:
             return None
